@@ -413,19 +413,15 @@ def _r4(ctx):
     # ---- gro prefix ---------------------------------------------------------------------------------------
     rel, cls = F.rel_cls("gro")
     w = F.method(ctx, "gro", "_write_frame")
-    fm = None
+    from ..pyfront import fold_str
+    inner = None
     for n in walk_no_nested(w):
-        if isinstance(n, ast.Assign) and dotted(n.targets[0]) == "fmt" and isinstance(n.value, ast.BinOp) and isinstance(const(n.value.left), str):
-            fm = n.value
-    if fm is None:
-        ctx.undecided("C01-R4", w, rel, cls + "._write_frame", "gro atom line format", "not found")
+        if isinstance(n, ast.Assign) and dotted(n.targets[0]) == "fmt":
+            # '%%5d%%-5s%%5s%%5d%%%d.%df...' % (varwidth, precision, ...), or the same built from pieces: folded to '%5d%-5s%5s%5d%{varwidth}.{precision}f...'
+            inner = fold_str(w, n.value)
+    if inner is None:
+        ctx.undecided("C01-R4", w, rel, cls + "._write_frame", "gro atom line format", "the format of the atom line could not be folded to one template")
     else:
-        outer = const(fm.left)
-        # '%%5d%%-5s%%5s%%5d%%%d.%df...' % (varwidth, precision, ...)
-        inner = outer.replace("%%", "\x00")
-        subs = [src(e) for e in fm.right.elts] if isinstance(fm.right, ast.Tuple) else []
-        it = iter(subs)
-        inner = re.sub(r"%d", lambda m: "{" + next(it, "?") + "}", inner).replace("\x00", "%")
         prefix = inner.split("%{")[0]
         psp = L.spans(L.parse_percent(prefix))
         pw = psp[-1]["end"] if psp else None
@@ -456,7 +452,29 @@ def _r5(ctx):
     else:
         toks = [src(v.value) for v in js[0].values if isinstance(v, ast.FormattedValue)]
         ctx.decide(toks == ["types[j]", "coord[0]", "coord[1]", "coord[2]"], "C01-R5", js[0], rel, cls + ".write", "tokens: type x y z", "", "xyz atom line tokens are %s" % toks)
-        ctx.decide("split_line[1:4]" in src(r) and "split_line[0]" in src(r), "C01-R5", r, rel, cls + "._read", "reads token 0 as type, 1..3 as x y z", "", "xyz reader token indices changed")
+        # the reader side by what it does, not by how it is spelled: the tokens of `<line>.split()` that are consumed, and which of them go through float()
+        tokvars = {t.id for n in walk_no_nested(r) if isinstance(n, ast.Assign) and isinstance(n.value, ast.Call) and isinstance(n.value.func, ast.Attribute) and n.value.func.attr == "split"
+                   for t in n.targets if isinstance(t, ast.Name)}
+        used = {"float": set(), "plain": set()}
+        for st in walk_no_nested(r):
+            if not isinstance(st, (ast.Assign, ast.AugAssign, ast.Expr)):
+                continue
+            numeric = any((isinstance(c, ast.Call) and call_name(c) == "float") or (isinstance(c, ast.Name) and c.id == "float") for c in ast.walk(st))
+            for sub in ast.walk(st):
+                if isinstance(sub, ast.Subscript) and isinstance(sub.value, ast.Name) and sub.value.id in tokvars:
+                    sl = sub.slice
+                    if isinstance(sl, ast.Constant) and isinstance(sl.value, int):
+                        idx = {sl.value}
+                    elif isinstance(sl, ast.Slice) and sl.step is None and all(x is None or (isinstance(x, ast.Constant) and isinstance(x.value, int)) for x in (sl.lower, sl.upper)) and sl.upper is not None:
+                        idx = set(range(sl.lower.value if sl.lower else 0, sl.upper.value))
+                    else:
+                        idx = {"?" + src(sl)}
+                    used["float" if numeric else "plain"] |= idx
+        if not tokvars:
+            ctx.undecided("C01-R5", r, rel, cls + "._read", "token indices", "no `<line>.split()` found in the reader")
+        else:
+            ctx.decide(used["plain"] == {0} and used["float"] == {1, 2, 3}, "C01-R5", r, rel, cls + "._read", "reads token 0 as type, tokens 1..3 as x y z through float()", "",
+                       "the reader takes tokens %s as text and %s as numbers (the writer emits: type x y z)" % (sorted(used["plain"], key=str), sorted(used["float"], key=str)))
     # ---- lammpstrj -------------------------------------------------------------------------------------
     rel, cls = F.rel_cls("lammpstrj")
     w = F.method(ctx, "lammpstrj", "write")
@@ -477,13 +495,12 @@ def _r5(ctx):
     w = F.method(ctx, "gro", "_write_frame")
     r = F.method(ctx, "gro", "_read_frame")
     W = []
+    from ..pyfront import fold_str
     for n in walk_no_nested(w):
-        if isinstance(n, ast.JoinedStr) and "box[" in src(n):
-            for v in n.values:
-                if isinstance(v, ast.FormattedValue):
-                    m = re.match(r"box\[(\d), (\d)\]", src(v.value))
-                    if m:
-                        W.append((int(m.group(1)), int(m.group(2))))
+        if isinstance(n, ast.Call) and isinstance(n.func, ast.Attribute) and n.func.attr in ("append", "write") and n.args and "box" in src(n.args[0]):
+            t = fold_str(w, n.args[0])
+            if t and "box[" in t:
+                W = [(int(a_), int(b_)) for a_, b_ in re.findall(r"\{box\[(\d), ?(\d)\]", t)]
     M = {}
     for n in walk_no_nested(r):
         if isinstance(n, ast.Assign) and dotted(n.targets[0]) == "unitcell_vectors" and isinstance(n.value, ast.Call) and n.value.args and isinstance(n.value.args[0], ast.List):
@@ -523,8 +540,19 @@ def _r5(ctx):
     # ---- NetCDF / HDF5 variable names ---------------------------------------------------------------------
     rel, cls = F.rel_cls("nc")
     w, r = F.method(ctx, "nc", "write"), F.method(ctx, "nc", "read")
-    wn = set(re.findall(r"variables\['(\w+)'\]\[", src(w)))
-    rn = set(re.findall(r"variables\['(\w+)'\]\[", src(r)))
+    ncmod = ctx.py.mod(rel)
+
+    def _names_used(fn, depth=2):
+        """string constants a method works with, itself or through the class's own helper methods / nested functions"""
+        out = {c.value for c in ast.walk(fn) if isinstance(c, ast.Constant) and isinstance(c.value, str) and c.value.isidentifier()}
+        if depth:
+            for c in ast.walk(fn):
+                if isinstance(c, ast.Call) and (call_name(c) or "").startswith("self."):
+                    h = ncmod.functions.get("%s.%s" % (cls, call_name(c)[5:]))
+                    if h is not None and h is not fn:
+                        out |= _names_used(h, depth - 1)
+        return out
+    wn, rn = _names_used(w), _names_used(r)
     for v in ("coordinates", "time", "cell_lengths", "cell_angles"):
         ctx.decide(v in wn and v in rn, "C01-R5", w, rel, cls, "variable %s written and read" % v, "", "NetCDF variable %s: written=%s read=%s" % (v, v in wn, v in rn))
     init = F.method(ctx, "nc", "_initialize_headers")
